@@ -171,6 +171,10 @@ func c19Lex(t string) []tok {
 var c19Exotic = []string{"\u00a0", "\u200b", "\u200d", "\u00ad", "\u3000", "\ufeff", "\u2028", "\u2029", "\u0085", "\u007f", "\x01", "\x1b", "\x00", "\xff", "\xc3", "\U0001F600",
 	"\U0001F468\u200d\U0001F469", "e\u0301", "\u202e", "\ufffd", "\ue000", "\U000e0001", "\\u00a0", "\\x41", "\\a", "\\0", "\\'", "'", "`", "$", "\\\\n"}
 
+// share of mutations that insert a very long value (set per tier: these texts
+// are two orders of magnitude more expensive to compare)
+var c19LongChance = 0.03
+
 func c19Mutate(r *vlib.Rand, t string) (string, string) {
 	toks := c19Lex(t)
 	pick := func(kind byte) (tok, bool) {
@@ -196,7 +200,7 @@ func c19Mutate(r *vlib.Rand, t string) (string, string) {
 		}
 		return cand[r.Intn(len(cand))], true
 	}
-	if r.Chance(0.03) {
+	if r.Chance(c19LongChance) {
 		// a very long value (beyond 64 KiB and 1 MiB line / token buffers)
 		if k, ok := pick('s'); ok && k.e-k.s >= 2 {
 			n := vlib.Pick(r, []int{4096, 65535, 65536, 70000, 1 << 20})
@@ -473,6 +477,9 @@ func C19(c *vlib.Ctx) {
 	}
 	c.Set("corpus_blocks", len(blocks))
 	n := c.N(6000, 600000)
+	if c.Thorough() {
+		c19LongChance = 0.002
+	}
 	for i := 0; i < n; i++ {
 		r := vlib.Derive(c.Seed, "C19", i)
 		var t, origin string
